@@ -33,15 +33,19 @@ def lin_cases(rep, rnd, tier):
     n_cases = 60 if tier == "quick" else 600
     for c in range(n_cases):
         n = rnd.choice([3, 4, 5, 8, 12])
-        mk = rnd.choice(["uni", "refined", "morphed"])
-        if mk == "uni":
+        mk = rnd.choice(["uni", "refined", "morphed", "micro"])
+        if mk == "micro":
+            # micrometre-scale domain, sound-speed-scale velocity: steps of 1e-10 (every dt is admissible, at any scale)
+            n = max(n, 4)
+            m = fd.mesh.refinedmesh(ncell=n, length=1e-6, ratio=rnd.choice([2.0, 0.5]))
+        elif mk == "uni":
             m = fd.uniform(n, length=rnd.choice([1.0, 2.0, 0.5]))
         elif mk == "refined":
             n = max(n, 4)
             m = fd.mesh.refinedmesh(ncell=n, length=1.0, ratio=rnd.choice([2.0, 0.5, 3.0]))
         else:
             m = fd.mesh.morphedmesh(ncell=n, length=1.0, morph=lambda x: x + 0.3 * x * (1.0 - x))
-        a = rnd.choice([1.0, -1.0, 2.0])
+        a = rnd.choice([1.0, -1.0, 2.0]) if mk != "micro" else rnd.choice([340.0, -340.0])
         model = fd.conv.model(a)
         rname = rnd.choice(fd.LINEAR_RECONS)
         # periodic, or imposed (dirichlet) states on both sides: the operator is then affine, R(Q) = A Q + b
@@ -68,7 +72,14 @@ def lin_cases(rep, rnd, tier):
         f = f0.copy()
         Qm = None
         nsteps = 3 if cn == "gear" else 2
+        dt_base, dtarr_base = dt, dtarr
         for s in range(nsteps):
+            # the steps of one integrator object need not be equal: the next one differs by a few 1e-6, the one after is a third
+            # (gear's BDF2 recurrence is the constant-step one: its steps stay equal)
+            fac = 1.0 if cn == "gear" else [1.0, 1.0 + 3e-6, 0.37][s % 3]
+            dt, dtarr = dt_base * fac, dtarr_base * fac
+            Dm = np.diag(dtarr) if local else dt * np.eye(n)
+            dtmax = float(np.max(dtarr)) if local else dt
             Qo = f.data[0].copy()
             t_before = f.time
             solver.step(f, dtarr.copy() if local else dt)
@@ -90,6 +101,7 @@ def lin_cases(rep, rnd, tier):
             recs.append(rec)
             rep.nontrivial.add(("lin", cn, n, mk, rname, cfl, a, bctype, local))
             Qm = Qo
+        dt, dtarr = dt_base, dtarr_base
         # the same relations along the MAIN trajectory of solve(), observed through save times placed at the end of every step
         # (snapshots are taken between the steps: whatever they do must leave the recurrence of the full steps alone)
         if c % 4 == 1 and not local:
@@ -281,7 +293,7 @@ def run(tier):
     for kind in ("lin", "amp", "grow", "jac"):
         rep.sample([r for r in recs if r["kind"] == kind][0], limit=8)
     wd = core.scratch("c06")
-    bad, jr = core.judge("Judge_Implicit", recs, wd)
+    bad, jr = core.judge("Judge_Implicit", recs, wd, unjudgeable="C06_unjudgeable")
     rep.add_tlc("Judge_Implicit", jr, counts_as_model=False)
     rep.traces = len(recs)
     byid = {r["id"]: r for r in recs}
